@@ -696,6 +696,75 @@ void ThrowingSetCase(Ctx& ctx) {
   CheckObs(ctx, obs, exp, sh, 1, "consumer of a Promise whose first Set threw");
 }
 
+// The same through SharedPromise::Set(args...): the SharedPromise keeps owning the state after the throw, every observer
+// (registered before or after the failed call) fires exactly once with the retried value or with StopError.
+void SharedThrowingSetCase(Ctx& ctx) {
+  using R = Result<Bomb, MyError>;
+  ResetTags();
+  int code = static_cast<int>(ctx.rng.In(1, 1000000));
+  u32 pj = ctx.rng.Below(5), cj = ctx.rng.Below(5);
+  int after = static_cast<int>(ctx.rng.Below(2));  // 0 retry, 1 drop the SharedPromise
+  int nobs = 1 + static_cast<int>(ctx.rng.Below(3));
+  ctx.Note("SharedPromise::Set(args) throws while constructing the value, then the producer %s; %d observers; pre-yields p=%u c=%u ",
+           after == 0 ? "retries" : "drops the SharedPromise", nobs, pj, cj);
+  ctx.Class(after == 0 ? "shared-retry" : "shared-drop");
+  Shared sh;
+  Obs obs[3];
+  bool threw = false, valid_after_throw = true;
+  {
+    auto [sf0, sp0] = yaclib::MakeSharedContract<Bomb, MyError>();
+    auto sf = std::move(sf0);
+    yaclib_std::thread producer([&, p = std::move(sp0)]() mutable {
+      Jitter(pj);
+      VF_W(sh.side, "C04,C06");
+      sh.side = code;
+      sh.set_call = Stamp();
+      try {
+        std::move(p).Set(code, true);
+      } catch (const MyException&) {
+        threw = true;
+      }
+      valid_after_throw = p.Valid();
+      Jitter(1);
+      if (after == 0 && p.Valid()) {
+        std::move(p).Set(code, false);
+      } else {
+        auto dead = std::move(p);
+      }
+      sh.set_ret = Stamp();
+    });
+    yaclib_std::thread consumer([&] {
+      for (int i = 0; i < nobs; ++i) {
+        Jitter(cj);
+        Obs* o = &obs[i];
+        sf.SubscribeInline([o, &sh](const R& r) {
+          o->at = Stamp();
+          VF_R(sh.side, "C04,C06");
+          o->side = sh.side;
+          o->state = static_cast<int>(r.State());
+          if (o->state == 0) {
+            o->code = r.Value().t.v;
+            o->fresh = r.Value().t.Fresh();
+          } else if (o->state == 2) {
+            o->code = r.Error().code;
+          }
+          o->calls.fetch_add(1, kRlx);
+        });
+      }
+    });
+    producer.join();
+    consumer.join();
+  }
+  ctx.SetNontrivial(true);
+  ctx.Check(threw, "set-rethrows", "C06", "SharedPromise::Set(args) did not let the exception of the value's constructor escape");
+  ctx.Check(valid_after_throw, "promise-valid-after-throwing-set", "C06",
+            "the SharedPromise is no longer Valid() after a Set whose value construction threw: the state is orphaned");
+  Expect exp = after == 0 ? Expect{0, code} : Expect{2, -1};
+  for (int i = 0; i < nobs; ++i) {
+    CheckObs(ctx, obs[i], exp, sh, 1, "observer of a SharedPromise whose first Set threw", "C06");
+  }
+}
+
 void Dispatch(Ctx& ctx, int ck, bool allow_moveonly, bool allow_void) {
   u32 n = 1 + (allow_moveonly ? 1 : 0) + (allow_void ? 1 : 0);
   u32 k = ctx.rng.Below(n);
@@ -724,6 +793,9 @@ VF_CELL(owner_destroyed, "continuation-destroys-promise-owner", "C01,C03,C04", 5
 }
 VF_CELL(throwing_set, "set-throws-then-retry-or-drop", "C01,C03", 5) {
   ThrowingSetCase(ctx);
+}
+VF_CELL(shared_throwing_set, "shared-set-throws-then-retry-or-drop", "C06,C03", 4) {
+  SharedThrowingSetCase(ctx);
 }
 VF_CELL(then_inline, "then-inline", "C01,C03,C04", 10) {
   Dispatch(ctx, cThenInline, true, true);
